@@ -439,7 +439,26 @@ def r18f(F):
 	out.append(Result('18.f', ok, ('ok:' if ok else 'shape:') + 'root-uses-filtered-leaves', 'root_hash builds its leaves through merkle_tlv_data', 1, where=F.where(rh.name)))
 	return out
 
+def r18g(F):
+	"""BOLT-11 time fields round-trip because they can only hold what the encoding can carry: whole seconds. ExpiryTime and PositiveTimestamp are
+	constructed in exactly one place each, from Duration::from_secs (the expiry) / a bounds-checked second count (the timestamp)"""
+	out = []
+	for adt, ctor in (('ExpiryTime', INV + 'ExpiryTime::from_seconds'), ('PositiveTimestamp', INV + 'PositiveTimestamp::from_unix_timestamp')):
+		out += P2_construct_census(F, '18.g', INV + adt, adt, [ctor], floor=1, note='%s values exist only with whole seconds' % adt)
+		fu = F.func(ctor)
+		ex = Expr(fu)
+		okv, seen = False, []
+		for b, si in sites_construct(fu, adt):
+			rv = fu.blocks[b]['s'][si][2]
+			e = ex.of_operand(rv[4][0])
+			seen.append(leaf_key(e)[:50])
+			calls = expr_leaves(e)['calls']
+			okv = any(c.endswith('Duration::from_secs') for c in calls) and not any(c.endswith(('from_millis', 'from_nanos', 'from_micros', 'from_secs_f64', 'from_secs_f32', 'Duration::new')) for c in calls)
+		out.append(Result('18.g', okv, ('ok:' if okv else 'precision:') + 'whole-seconds@' + adt, '%s is built from Duration::from_secs(..) (found %s)%s' % (adt, seen, '' if okv else ' - a sub-second part cannot be encoded: the emitted string parses back to a different invoice'), len(seen), where=F.where(ctor)))
+	return out
+
 RULES = [
+	('18.g', 'BOLT-11 expiry and timestamp hold whole seconds only: single constructor, built with Duration::from_secs', r18g),
 	('18.a', 'signed BOLT-12 objects are built only behind signature verification (parser) or sign_message (signer)', r18a),
 	('18.b', 'Bolt11Invoice only through from_signed (all four checks) or the builder; signature checked against the included payee key; hash from parsed parts', r18b),
 	('18.c', 'stateless metadata verifies only on the constant-time comparison; verify_using_* reach it', r18c),
